@@ -20,6 +20,7 @@ fn main() {
             // the channel promises never to block its callers: a case that does not return is a violation
             s.hang_is_violation(120);
             s.require("self-reported-metrics", 2000);
+            s.require("send-inside-receiver-allocation", 1000);
         s.require("send-between-handoff-and-resolution", 2000);
         s.require("retry", 2000);
         s.require("truncation", 2000);
